@@ -75,6 +75,20 @@ def split_failures(ctx, failures, base, stats, timeout):
                 res[prof] = {n: ({"status": "ok", "tests": [by[n]]} if n in by else {"status": "harness_error", "error": "no result"}) for n in singles}
         for g in gens:
             out.append((g, singles[g.p.name], res["debug"][g.p.name], res["release"][g.p.name]))
+        for prof in bad:
+            if all(res[prof][n]["status"] == "ok" for n in singles) and rs[prof]["status"] != "harness_error":
+                # every program builds alone but the package does not: an interaction between the programs
+                # (cross-program function dedup / inlining); the failing input is the package itself
+                pdir = os.path.join(base, name)
+                msg = diag(pdir, prof == "release") if rs[prof]["status"] == "build_error" else rs[prof].get("error", "")[:600]
+                cls = classify_build_failure(msg, rs[prof])
+                other = "release" if prof == "debug" else "debug"
+                if rs[other]["status"] == "ok":
+                    ctx.violation("profile-build-%s" % cls, {"package": pdir, "profile": prof, "diagnostics": msg, "programs": len(gens),
+                                                              "source": open(os.path.join(pdir, "src", "lib.sw")).read()[:200000]},
+                                  "the %s build of a package of %d generated programs fails (%s) although every program builds alone and the %s build of the package succeeds: %s"
+                                  % (prof, len(gens), cls, other, msg[:200]))
+                    stats["package_only_failures"] = stats.get("package_only_failures", 0) + 1
     return out
 
 def confirm_timeout(d, release):
